@@ -180,6 +180,9 @@ pub fn replay(f: &Failure) -> i32 {
         for x in fs.iter() {
             println!("REPLAYED property=C17 kind={} detail={}", x.kind, x.detail);
         }
+        if fs.is_empty() {
+            println!("replay: no failure on this tree");
+        }
         println!("input:\n{}", f.input);
         return if fs.is_empty() { 0 } else { 1 };
     }
